@@ -88,9 +88,14 @@ def main(run):
 
     def mk(w, vals, cv=None, constrained=False, scale=(1, 1)):
         C = fitcls(w, constrained, scale)
+        route = rng.randint(0, 2)
+        fv = None if vals is None else tuple(float(v) / scale[0] for v in vals)
+        if fv is not None and route == 0:
+            # constructor route: Fitness(values) / ConstrainedFitness(values, constraint_violation)
+            return C(fv, cv) if constrained else C(fv)
         f = C(constraint_violation=cv) if constrained else C()
-        if vals is not None:
-            f.values = tuple(float(v) / scale[0] for v in vals)
+        if fv is not None:
+            f.values = list(fv) if route == 1 else fv      # a list is accepted as well as a tuple
         return f
 
     def wv_int(f, scale):
@@ -159,6 +164,42 @@ def main(run):
         sl = slice(rng.choice([None, None, -6, -2, -1, 0, 1, 2, 3, 7]), rng.choice([None, None, -6, -2, -1, 0, 1, 2, 3, 7]),
                    rng.choice([None, None, 1, 2, 3, -1, -2]))
         dom_case(w, va, vb, sl, scale)
+    # ---- near ties: doubles 1 ulp / 2**-40 relative apart, around several magnitudes, weights +-1 (products exact).
+    # The model works on the order-isomorphic integers r(v) = sign(v) * rank(|v|), for which negation commutes.
+    import math
+    def near_pool(b):
+        return [b, math.nextafter(b, math.inf), math.nextafter(b, -math.inf), b * (1 + 2.0 ** -40), b * (1 - 2.0 ** -40), b + 1e-12]
+    for _ in range(run.scale(300, 3000)):
+        n = rng.randint(1, 4)
+        w = [rng.choice([1, -1]) for _ in range(n)]
+        bases = [rng.choice([1.0, 3.0, 1e6, 1e-6, 0.1, 1e9]) for _ in range(n)]
+        fa = [rng.choice(near_pool(b)) * rng.choice([1, 1, 1, -1]) for b in bases]
+        fb = [x if rng.random() < 0.5 else rng.choice(near_pool(b)) * rng.choice([1, 1, 1, -1]) for x, b in zip(fa, bases)]
+        mags = sorted({abs(x) for x in fa + fb})
+        rk = lambda x: (1 if x > 0 else -1 if x < 0 else 0) * (mags.index(abs(x)) + 1)
+        Ca = fitcls(w)
+        a, b = Ca(), Ca()
+        a.values, b.values = tuple(fa), tuple(fb)
+        obs = [bool(op(a, b)) for op in ops6]
+        wa = [x * y for x, y in zip(fa, w)]
+        wb = [x * y for x, y in zip(fb, w)]
+        case = {"kind": "cmp-near-tie", "weights": w, "a": [x.hex() for x in fa], "b": [x.hex() for x in fb], "observed": obs}
+        if list(a.wvalues) != wa or list(b.wvalues) != wb:
+            run.oracle_violation("weighted values are not value*weight (near-tie doubles)", case, observed=[list(a.wvalues), list(b.wvalues)])
+        if obs != spec_six(wa, wb):
+            run.oracle_violation("comparison operators differ from lexicographic comparison of weighted values (near-tie doubles)", case, observed=obs)
+        dobs = bool(a.dominates(b))
+        if dobs != spec_dom(wa, wb):
+            run.oracle_violation("dominates differs from 'no worse everywhere and better somewhere' (near-tie doubles)", case, observed=dobs)
+        ra, rb = [rk(x) for x in fa], [rk(x) for x in fb]
+        add("CCmp %s %s %s %s %s %s" % (czl(w), copt(ra, czl), copt(rb, czl), czl([x * y for x, y in zip(ra, w)]),
+                                        czl([x * y for x, y in zip(rb, w)]), cbl(obs)), case)
+        add("CDom %s %s %s %s %s" % (czl(w), czl(ra), czl(rb), cslice(slice(None)), cbool(dobs)), case)
+        # a fitness compared with itself
+        self6 = [bool(op(a, a)) for op in ops6]
+        if self6 != [False, True, True, False, False, True] or a.dominates(a):
+            run.oracle_violation("a fitness compared with itself", case, observed=self6)
+
     # ---- triples: transitivity / order-type consistency is implied by agreement with lex on all pairs;
     # the oracle additionally checks sortedness of triples under the implementation's operators
     for _ in range(run.scale(200, 2000)):
